@@ -13,6 +13,7 @@ from vf import fits as FT
 from vf.gen import rng_for
 
 ID = "C04"
+TECHNIQUE = 'runtime monitoring: recorded gate events (exception type or returned object) of the real fit/predict under every flag/storage/input-type/timezone combination, judged by a truth table written from the statement'
 LEVEL = "exploration"
 CASE_TIMEOUT = 3000
 RULE = ("families {daily current/legacy, billing, hourly} x baseline datasets (non-constant noisy usage) with each kind of sufficiency defect {none, too "
